@@ -14,6 +14,7 @@ flushEntryOf cur now` (Proofs/CronFlush.lean: `flushEntry_of_lookup`, `flushEntr
 import FurikoModel.Generated.Facts
 import FurikoModel.Proofs.CronRunFlush
 import FurikoModel.Proofs.CronExamples
+import FurikoModel.Proofs.CronSource
 
 namespace Furiko.Cron.C03
 open Furiko Furiko.Cron
@@ -256,11 +257,12 @@ example : let wDel := onDelete Ex.w0 Ex.jcA Facts.cronHandlerDelete
     (runTicks 5 1000 10 wDel [5000000000, 12000000000, 22000000000]).2 = ([[], [], []], true) :=
   ⟨Ex.w0_inv, Ex.w0_lister, by decide, by decide, by decide, by decide⟩
 
-/-- Delete then re-create under the same key with a different schedule: after the next tick the
+/-- (Worker level: both events flushed; `recreate_follows_new_schedule_only` below shows that they
+are.)  Delete then re-create under the same key with a different schedule: after the next tick the
 key's entry is the NEW version's `getNext … now`, and nothing is requested for the key in that
 tick — whatever the old version's entry was (with `flush_no_backdating`: afterwards only the new
 schedule fires, strictly after `now`). -/
-theorem recreate_follows_new_schedule_only {w : Worker} {now cap : Int} {flushLimit fuel : Nat}
+theorem recreate_follows_new_schedule_only_of_flush {w : Worker} {now cap : Int} {flushLimit fuel : Nat}
     (hInv : Heap.Inv w.heap) (hL : ListerOK w.lister) {jc jcN : JC} (hkey : jcN.key = jc.key)
     (hs : ∀ l ∈ jcN.sched.exprs, SortedStrict l) (hlim : w.chan.length + 2 ≤ flushLimit) :
     let w' := onAdd (onDelete w jc Facts.cronHandlerDelete) jcN Facts.cronHandlerAdd
@@ -342,10 +344,11 @@ example : Heap.Inv Ex.w0.heap ∧ ListerOK Ex.w0.lister ∧ Heap.search Ex.w0.he
       = [[], [("a", 10)], [("a", 15), ("a", 20), ("a", 30)]] :=
   ⟨Ex.w0_inv, Ex.w0_lister, by decide, fun _ h => (by cases h), by decide⟩
 
-/-- Create: the add handler is registered (`Facts.cronHandlerAdd`), so the new JobConfig is
-scheduled: after `onAdd` and one tick at `now` its entry is `getNext … now` (and nothing is
-requested for it in that tick). -/
-theorem create_starts {w : Worker} {now cap : Int} {flushLimit fuel : Nat}
+/-- (Worker level: the add is flushed; `create_starts` below shows when it is.)  Create: the add
+handler is registered (`Facts.cronHandlerAdd`), so the new JobConfig is scheduled: after `onAdd`
+and one tick at `now` its entry is `getNext … now` (and nothing is requested for it in that
+tick). -/
+theorem create_starts_of_flush {w : Worker} {now cap : Int} {flushLimit fuel : Nat}
     (hInv : Heap.Inv w.heap) (hL : ListerOK w.lister)
     {jc : JC} (hs : ∀ l ∈ jc.sched.exprs, SortedStrict l)
     (hen : jc.sched.enabled = true) (hpe : jc.sched.parseErr = false)
@@ -372,5 +375,137 @@ example : Heap.Inv Ex.w0.heap ∧ ListerOK Ex.w0.lister ∧ jcB.sched.enabled = 
     (runTicks 5 1000 10 (onAdd Ex.w0 jcB Facts.cronHandlerAdd) [7000000000, 12000000000]).2.1
       = [[], [("a", 10), ("b", 10)]] :=
   ⟨Ex.w0_inv, Ex.w0_lister, rfl, rfl, by decide, by decide⟩
+
+/-! ### the handlers next to the record of what `Init` loaded (F24)
+
+`handleAdd` ignores the add of a JobConfig that `CronWorker.Init` loaded (recorded key with the
+recorded UID): that is the informer's notification for an object that existed at boot.  The
+theorems below show that this does not take back the repairs of F1 and F12: every OTHER add is
+flushed.  They are stated for the shapes the source has (`Facts.…`) and proved for either value of
+`takes` (before the repair of F24 every add is flushed). -/
+
+/-- an add is flushed (the worker sees exactly `onAdd`) unless `handleAdd` consults the record and
+the record holds the key with this UID -/
+theorem ctlAdd_flushes {c : Ctl} {jc : JC} {takes : Bool}
+    (h : takes = true → lookupUid c.loaded jc.key ≠ some jc.uid) :
+    (ctlAdd c jc true takes).worker = onAdd c.worker jc true := by
+  cases takes with
+  | false => simp [ctlAdd, handleAdd, onAdd]
+  | true =>
+    have hn := h rfl
+    unfold ctlAdd
+    rw [handleAdd_not_loaded (c := { c with worker := { c.worker with
+      lister := listerSet c.worker.lister jc.key jc } }) hn]
+    simp [onAdd]
+
+/-- … and conversely the add of a recorded JobConfig with the recorded UID is not: only the cache
+changes -/
+theorem ctlAdd_of_loaded {c : Ctl} {jc : JC} (h : lookupUid c.loaded jc.key = some jc.uid) :
+    (ctlAdd c jc true true).worker = onAdd c.worker jc false ∧
+    lookupUid (ctlAdd c jc true true).loaded jc.key = none := by
+  unfold ctlAdd
+  rw [handleAdd_loaded (c := { c with worker := { c.worker with
+    lister := listerSet c.worker.lister jc.key jc } }) h]
+  exact ⟨by simp [onAdd], lookupUid_forget_self _ _⟩
+
+/-- delete and update events reach the worker as before; a delete also forgets the record -/
+theorem ctlDelete_worker (c : Ctl) (jc : JC) (reg forgets : Bool) :
+    (ctlDelete c jc reg forgets).worker = onDelete c.worker jc reg ∧
+    (reg = true → forgets = true → lookupUid (ctlDelete c jc reg forgets).loaded jc.key = none) := by
+  refine ⟨rfl, fun h1 h2 => ?_⟩
+  subst h1; subst h2
+  exact lookupUid_forget_self _ _
+
+/-- an update event reaches the worker as before and does not look at the record -/
+theorem ctlUpdate_worker (c : Ctl) (old new : JC) (reg : Bool) :
+    (ctlUpdate c old new reg).worker = onUpdate c.worker old new reg ∧
+    (ctlUpdate c old new reg).loaded = c.loaded := ⟨rfl, rfl⟩
+
+/-- A JobConfig whose key `Init` did not load is never in the record, whatever happened since
+(ticks, initial adds, creations, updates, deletions; any shapes): its creation is always flushed. -/
+theorem never_loaded_never_recorded (sh : Shapes) (cap : Int) (flushLimit fuel : Nat)
+    {jcs : List JC} (pq : Heap.PQ) (acts : List CtlAct) {k : String}
+    (hk : ∀ jc ∈ jcs, jc.key ≠ k) :
+    lookupUid (ctlRun sh cap flushLimit fuel (bootCtl jcs pq) acts).1.loaded k = none := by
+  cases h : lookupUid (ctlRun sh cap flushLimit fuel (bootCtl jcs pq) acts).1.loaded k with
+  | none => rfl
+  | some u =>
+    have := ctlRun_loaded_shrinks sh cap flushLimit fuel acts (bootCtl jcs pq) h
+    rw [show (bootCtl jcs pq).loaded = recordLoaded jcs from rfl,
+      lookupUid_recordLoaded_none hk] at this
+    cases this
+
+/-- **Create** (F1 stays repaired): the add handler is registered, and the add of a JobConfig that
+is not recorded as loaded under its UID — any JobConfig created while the controller runs: a new
+name is never recorded (`never_loaded_never_recorded`), a re-used name was forgotten by the delete
+(`recreate_follows_new_schedule_only`) or carries another UID — is flushed: after one tick at `now`
+its entry is `getNext … now`, and nothing is requested for it in that tick. -/
+theorem create_starts {c : Ctl} {now cap : Int} {flushLimit fuel : Nat}
+    (hInv : Heap.Inv c.worker.heap) (hL : ListerOK c.worker.lister)
+    {jc : JC} (hs : ∀ l ∈ jc.sched.exprs, SortedStrict l)
+    (hen : jc.sched.enabled = true) (hpe : jc.sched.parseErr = false)
+    (hlim : c.worker.chan.length + 1 ≤ flushLimit)
+    (hnl : lookupUid c.loaded jc.key ≠ some jc.uid) :
+    let c' := ctlAdd c jc Facts.cronHandlerAdd Facts.cronHandleAddTakesLoaded
+    Heap.search (ctlWork c' now cap flushLimit fuel).1.worker.heap jc.key
+      = getNext jc.nxt jc.sched.notBefore jc.sched.notAfter now ∧
+    ((ctlWork c' now cap flushLimit fuel).2.1.filter (fun p => p.1 = jc.key)).map (fun p => p.2)
+      = [] := by
+  intro c'
+  have hw : c'.worker = onAdd c.worker jc Facts.cronHandlerAdd :=
+    ctlAdd_flushes (takes := Facts.cronHandleAddTakesLoaded) (fun _ => hnl)
+  have := create_starts_of_flush (now := now) (cap := cap) (fuel := fuel) hInv hL hs hen hpe hlim
+  simp only [ctlWork]
+  rw [hw]
+  exact this
+
+/-- non-vacuity: "b" is created into the state `Init` left after loading "a" (record: a ↦ "") -/
+example : let c0 := bootCtl [Ex.jcA] (Heap.new [("a", 10)])
+    lookupUid c0.loaded jcB.key ≠ some jcB.uid ∧
+    (ctlRun Shapes.source 5 1000 10 c0 [.add jcB, .tick 7000000000, .tick 12000000000]).2.1
+      = [[], [("a", 10), ("b", 10)]] :=
+  ⟨by decide, by decide⟩
+
+/-- **Delete then re-create** under the same key (F12 stays repaired) — also under the SAME UID,
+and also when the record of the deleted JobConfig was never consumed by an add: the delete handler
+forgets the record (`Facts.cronHandleDeleteForgetsLoaded`, needed only if `handleAdd` consults it),
+so the re-creation is flushed and the key follows the NEW version only. -/
+theorem recreate_follows_new_schedule_only {c : Ctl} {now cap : Int} {flushLimit fuel : Nat}
+    (hInv : Heap.Inv c.worker.heap) (hL : ListerOK c.worker.lister) {jc jcN : JC}
+    (hkey : jcN.key = jc.key)
+    (hs : ∀ l ∈ jcN.sched.exprs, SortedStrict l) (hlim : c.worker.chan.length + 2 ≤ flushLimit) :
+    let c' := ctlAdd (ctlDelete c jc Facts.cronHandlerDelete Facts.cronHandleDeleteForgetsLoaded) jcN
+      Facts.cronHandlerAdd Facts.cronHandleAddTakesLoaded
+    lookup c'.worker.lister jc.key = some jcN ∧
+    Heap.search (ctlWork c' now cap flushLimit fuel).1.worker.heap jc.key = flushEntryOf jcN now ∧
+    ((ctlWork c' now cap flushLimit fuel).2.1.filter (fun p => p.1 = jc.key)).map (fun p => p.2)
+      = [] := by
+  intro c'
+  have hshape : Facts.cronHandleAddTakesLoaded = true → Facts.cronHandleDeleteForgetsLoaded = true := by
+    decide
+  have hw : c'.worker
+      = onAdd (onDelete c.worker jc Facts.cronHandlerDelete) jcN Facts.cronHandlerAdd := by
+    have := ctlAdd_flushes (c := ctlDelete c jc Facts.cronHandlerDelete
+      Facts.cronHandleDeleteForgetsLoaded) (jc := jcN) (takes := Facts.cronHandleAddTakesLoaded)
+      (fun ht => by
+        have hnone := (ctlDelete_worker c jc Facts.cronHandlerDelete
+          Facts.cronHandleDeleteForgetsLoaded).2 rfl (hshape ht)
+        rw [hkey, hnone]
+        exact fun h => by cases h)
+    exact this
+  have := recreate_follows_new_schedule_only_of_flush (now := now) (cap := cap) (fuel := fuel)
+    hInv hL hkey hs hlim
+  simp only [ctlWork]
+  rw [hw]
+  exact this
+
+/-- non-vacuity: "a" is loaded by `Init` (record a ↦ ""), its initial add is never handled; it is
+deleted and re-created under the same (empty) UID with `jcNew` (50, 60): only 50 is requested -/
+example : let c0 := bootCtl [Ex.jcA] (Heap.new [("a", 10)])
+    lookupUid c0.loaded "a" = some jcNew.uid ∧
+    (ctlRun Shapes.source 5 1000 10 c0
+      [.delete Ex.jcA, .add jcNew, .tick 25500000000, .tick 40000000000, .tick 55000000000]).2
+      = ([[], [], [("a", 50)]], true) :=
+  ⟨by decide, by decide⟩
 
 end Furiko.Cron.C03
